@@ -1118,12 +1118,12 @@ def wl_multichar(run, rng, idx):
 
 
 WORKLOADS = [
-    Workload("dense-sample", wl_dense_sample, quick=80, thorough=0),
+    Workload("dense-sample", wl_dense_sample, quick=56, thorough=0),
     Workload("dense-all", wl_dense_all, quick=0, thorough=(DENSE_CASES + BLOCK - 1) // BLOCK),
-    Workload("small-tables", wl_small_tables, quick=36, thorough=2000),
-    Workload("random", wl_random, quick=50, thorough=3000),
-    Workload("multichar-labels", wl_multichar, quick=14, thorough=400),
+    Workload("small-tables", wl_small_tables, quick=24, thorough=2000),
+    Workload("random", wl_random, quick=36, thorough=3000),
+    Workload("multichar-labels", wl_multichar, quick=8, thorough=400),
     Workload("builtin", wl_builtin, quick=21, thorough=84),
-    Workload("coxeter", wl_coxeter, quick=8, thorough=40),
+    Workload("coxeter", wl_coxeter, quick=6, thorough=40),
 ]
 EXHAUSTIVE = {"quick": False, "thorough": False}
